@@ -725,6 +725,29 @@ theorem flatten_length (vs : List (List Nat)) : vs.flatten.length = sumTo vs vs.
   | nil => simp [sumTo]
   | cons v vs ih => rw [List.length_cons, sumTo_cons_succ]; simp [ih]
 
+/-- the record format loses nothing: two rows that match the schema, fit the u16 fields and build
+to the same bytes are the same row (NULLs and byte contents included) -/
+theorem build_injective (s : List ColKind) (r1 r2 : List (Option (List Nat)))
+    (h1 : RowOk s r1) (h2 : RowOk s r2) (f1 : Fits s r1) (f2 : Fits s r2)
+    (h : build s (setRow s r1 0 (new s)) = build s (setRow s r2 0 (new s))) : r1 = r2 := by
+  obtain ⟨d1, b1, g1⟩ := view_build s r1 h1 f1
+  obtain ⟨d2, b2, g2⟩ := view_build s r2 h2 f2
+  have hd : d1 = d2 := by
+    rw [h, b2] at b1
+    injection b1 with e
+    exact e.symm
+  subst hd
+  have l1 := rowOk_length h1
+  have l2 := rowOk_length h2
+  apply List.ext_getElem (by rw [l1, l2])
+  intro i hi1 hi2
+  have e1 := g1 i (by omega)
+  have e2 := g2 i (by omega)
+  rw [e1] at e2
+  simp only [List.getD_eq_getElem?_getD, List.getElem?_eq_getElem hi1, List.getElem?_eq_getElem hi2,
+    Option.getD_some] at e2
+  cases c1 : r1[i] <;> cases c2 : r2[i] <;> simp_all
+
 /-- LAYOUT: the built record is header (2 + bitmap + 2 bytes per variable column), fixed area,
 variable area; its first two bytes are the header length. -/
 theorem build_length (s : List ColKind) (row : List (Option (List Nat))) (h : RowOk s row)
